@@ -81,6 +81,35 @@ def ob_extrapolate(env):
     env.claim("extended_abscissa_increasing", psi1D[n0] > psi1D[n0 - 1])
 
 
+def _mk_extrapolate_range(decreasing):
+    """extrapolate_profiles with different limits for the outer and the inner SOL: the profiles are extended to the limit that lies FURTHER out
+    (larger psi if psi increases outwards, smaller if it decreases), so that no grid point falls beyond the extended profile"""
+    def body(env):
+        a, b = env.real("psi_sol", lo=-90, hi=90), env.real("psi_sol_inner", lo=-90, hi=90)
+        loc, orig, given, me, _ = c14.run_prologue(env, False, False, False, True, psi_sol=a, psi_sol_inner=b, decreasing=decreasing)
+        psi1D, pressure, fpol1D = loc["psi1D"], loc["pressure"], loc["fpol1D"]
+        edge = orig["psi1D"][-1]
+        if len(psi1D) == 3:
+            env.tag("not_extended")
+            # not extended only if neither limit lies beyond the last profile point
+            if decreasing:
+                env.claim("not_extended_only_if_no_limit_lies_beyond_the_profile", (a >= edge) & (b >= edge) if env.mode == "sym" else (a >= edge and b >= edge))
+            else:
+                env.claim("not_extended_only_if_no_limit_lies_beyond_the_profile", (a <= edge) & (b <= edge) if env.mode == "sym" else (a <= edge and b <= edge))
+            return
+        env.tag("extended")
+        env.witness("extended")
+        last = psi1D[-1]
+        if decreasing:
+            env.claim("extended_to_the_further_of_the_two_sol_limits", (last <= a) & (last <= b) & ((last == a) | (last == b)) if env.mode == "sym"
+                      else (last <= a + 1e-12 and last <= b + 1e-12))
+        else:
+            env.claim("extended_to_the_further_of_the_two_sol_limits", (last >= a) & (last >= b) & ((last == a) | (last == b)) if env.mode == "sym"
+                      else (last >= a - 1e-12 and last >= b - 1e-12))
+        env.claim("profiles_extended_together", len(psi1D) == len(pressure) == len(fpol1D))
+    return body
+
+
 _S = {}
 
 
@@ -237,6 +266,11 @@ for _k in ("lsn", "usn", "cdn", "ldn", "udn"):
                               encodes=["hypnotoad.cases.tokamak:TokamakEquilibrium.createRegionObjects"],
                               desc="leg regions: pressure(psi) = p(psi_leg + sign(psi_sep-psi_axis)*|psi-psi_leg|); core regions: p(psi)",
                               stubs=["pressure profile uninterpreted"], bounds="sizes symbolic; psi_axis on either side of psi_sep"))
+for _dec in (False, True):
+    OBLIGATIONS.append(Ob("extrapolated_range_psi_%s" % ("decreasing" if _dec else "increasing"), _mk_extrapolate_range(_dec), tier="quick", family="constructor options",
+                          encodes=["hypnotoad.cases.tokamak:TokamakEquilibrium.__init__"],
+                          desc="extrapolate_profiles: profiles reach the further of psi_sol / psi_sol_inner in the outward direction of psi (both limits symbolic)",
+                          bounds="3 profile knots, psi_sol and psi_sol_inner symbolic in [-90, 90]"))
 OBLIGATIONS.append(Ob("scalars", ob_scalars, tier="quick", family="scalars", encodes=["hypnotoad.cases.tokamak:TokamakEquilibrium.__init__"],
                       desc="psi_axis, o_point, psi_bdry, x_points, psi_sep are taken from the first O-/X-point in the order returned", bounds="2 O-points, 2 X-points"))
 # shared obligations
